@@ -267,6 +267,7 @@ type callRT struct {
 	phase   string
 	ctxDone bool // the harness ended this call's own context
 	wroteOK bool // the transport accepted this call's frame
+	earlyResp bool // a raw call: a response for its sequence number arrived while its write was still pending
 }
 
 type rig struct {
@@ -690,6 +691,9 @@ func (r *rig) exec1(id string, e csmEvent) (bool, error) {
 			}
 		} else if e.op == "wfail" || rt.spec.oneway {
 			r.awaitRet(rt, e.c, false)
+		} else if rt.earlyResp {
+			// the answer is already there when SendRaw reaches its select: it takes it at once
+			r.awaitRet(rt, e.c, true)
 		}
 		return true, nil
 	case "ctx":
@@ -721,6 +725,13 @@ func (r *rig) exec1(id string, e csmEvent) (bool, error) {
 		}
 		r.conn.rdCh <- buildResp(e, r.bytesMode)
 		r.modelEvs = append(r.modelEvs, e.enc())
+		if !e.push {
+			for _, c := range r.calls {
+				if c.spec.kind == 'R' && c.phase == "enc" && c.seq >= 0 && uint64(c.seq) == e.seq {
+					c.earlyResp = true
+				}
+			}
+		}
 		if !e.push {
 			r.fed[e.seq] = append(r.fed[e.seq], e)
 		}
